@@ -70,8 +70,8 @@ def _h1(paint_mod):
     from picosvg.svg_transform import Affine2D
 
     @functools.wraps(orig)
-    def transformed(transform, target):
-        res = orig(transform, target)
+    def transformed(transform, target, *extra, **kw):
+        res = orig(transform, target, *extra, **kw)
         COUNT["H1.transformed"] += 1
         try:
             if transform == Affine2D.identity():
@@ -129,8 +129,8 @@ def _h7(paint_mod):
 
         def make(orig, cls):
             @functools.wraps(orig)
-            def apply_transform(self, transform, check_overflows=True):
-                res = orig(self, transform, check_overflows)
+            def apply_transform(self, transform, *extra, **kw):
+                res = orig(self, transform, *extra, **kw)
                 COUNT["H7." + cls.__name__] += 1
                 try:
                     if isinstance(self, paint_mod.PaintLinearGradient):
@@ -178,10 +178,10 @@ def _h2(reuse_mod):
 
     orig_round = _SVGPath.round_multiple
 
-    def round_multiple(self_, multiple_of, inplace=False):
+    def round_multiple(self_, *a, **kw):
         if _STATE["capture_round"] is not None:
             _STATE["capture_round"].append(self_.d)
-        return orig_round(self_, multiple_of, inplace=inplace)
+        return orig_round(self_, *a, **kw)
 
     _SVGPath.round_multiple = round_multiple
 
@@ -204,8 +204,8 @@ def _h2(reuse_mod):
         return out
 
     @functools.wraps(orig_try)
-    def try_reuse(self, path):
-        res = _norm_log("try", self, path, lambda: orig_try(self, path))
+    def try_reuse(self, path, *extra, **kw):
+        res = _norm_log("try", self, path, lambda: orig_try(self, path, *extra, **kw))
         COUNT["H2.try_reuse"] += 1
         try:
             if self._reuse_tolerance == -1:
@@ -233,11 +233,15 @@ def _h2(reuse_mod):
             if donor is None:
                 _fail("H2", "reuse names a glyph that is not in the cache", glyph=res.glyph_name)
                 return res
-            a = [geom.apply(_mat(t), c) for c in geom.flatten_svg_d(donor, 0.02)]
+            # flatten the donor finely enough that the chord error is still 0.02 after the reuse transform
+            sig = max(1.0, float(np.linalg.svd(_mat(t)[:2, :2], compute_uv=False)[0]))
+            a = [geom.apply(_mat(t), c) for c in geom.flatten_svg_d(donor, 0.02 / sig)]
             b = geom.flatten_svg_d(path, 0.02)
             if a and b:
                 nseg = geom.count_segments_svg_d(path)
                 H = geom.hausdorff(a, b, step=max(0.5, max(np.ptp(np.vstack(b), axis=0)) / 200))
+                # picosvg accepts the transform when every *relative* path argument agrees within the tolerance (in the
+                # units of `path`), so end points may drift by tolerance per segment
                 allow = 2.0 * max(self._reuse_tolerance, 1e-3) * (max(1, nseg) + 1) + 0.05
                 COUNT["H2.hausdorff_checked"] += 1
                 if H > allow:
@@ -247,9 +251,9 @@ def _h2(reuse_mod):
         return res
 
     @functools.wraps(orig_add)
-    def add_glyph(self, glyph_name, glyph_path):
+    def add_glyph(self, glyph_name, glyph_path, *extra, **kw):
         COUNT["H2.add_glyph"] += 1
-        out = _norm_log("add", self, glyph_path, lambda: orig_add(self, glyph_name, glyph_path))
+        out = _norm_log("add", self, glyph_path, lambda: orig_add(self, glyph_name, glyph_path, *extra, **kw))
         if LOG.get("norm"):
             LOG["norm"][-1]["glyph"] = glyph_name
         return out
@@ -316,12 +320,12 @@ def _h3(wf):
     orig_create = wf._create_glyph
 
     @functools.wraps(orig_create)
-    def _create_glyph(color_glyph, paint, path_in_font_space):
+    def _create_glyph(color_glyph, paint, path_in_font_space, *extra, **kw):
         COUNT["H10.glyph_created"] += 1
         if _STATE["last_hit_path"] is not None and _STATE["last_hit_path"] == path_in_font_space:
             COUNT["H10.reuse_declined_overflow"] += 1
         _STATE["last_hit_path"] = None
-        return orig_create(color_glyph, paint, path_in_font_space)
+        return orig_create(color_glyph, paint, path_in_font_space, *extra, **kw)
 
     wf._create_glyph = _create_glyph
     _rebind(orig_create, _create_glyph)
@@ -371,9 +375,9 @@ def _h4(colors_mod):
     orig = colors_mod.uniq_sort_cpal_colors
 
     @functools.wraps(orig)
-    def uniq_sort_cpal_colors(colors):
+    def uniq_sort_cpal_colors(colors, *extra, **kw):
         colors = list(colors)
-        res = orig(iter(colors))
+        res = orig(iter(colors), *extra, **kw)
         COUNT["H4.palette"] += 1
         try:
             msg = palette_spec(colors, res)
@@ -418,8 +422,8 @@ def _h5(cfgmod):
     orig = cfgmod.write
 
     @functools.wraps(orig)
-    def write(dest, config):
-        res = orig(dest, config)
+    def write(dest, config, *extra, **kw):
+        res = orig(dest, config, *extra, **kw)
         COUNT["H5.config_write"] += 1
         try:
             back = cfgmod.load(dest)
@@ -440,8 +444,8 @@ def _h6(gm):
     orig = cls.csv_line
 
     @functools.wraps(orig)
-    def csv_line(self):
-        line = orig(self)
+    def csv_line(self, *extra, **kw):
+        line = orig(self, *extra, **kw)
         COUNT["H6.csv_line"] += 1
         try:
             back = gm.load_from(io.StringIO(line))
@@ -461,8 +465,8 @@ def _h8(glyph_mod):
     orig = glyph_mod.glyph_name
 
     @functools.wraps(orig)
-    def glyph_name(codepoints):
-        name = orig(codepoints)
+    def glyph_name(codepoints, *extra, **kw):
+        name = orig(codepoints, *extra, **kw)
         COUNT["H8.glyph_name"] += 1
         try:
             cps = tuple(codepoints)
@@ -488,8 +492,8 @@ def _h9(svg_mod):
     from vf.oracle.svgeval import parse_transform
 
     @functools.wraps(orig)
-    def _create_use_element(svg, parent_el, reuse_result):
-        el = orig(svg, parent_el, reuse_result)
+    def _create_use_element(svg, parent_el, reuse_result, *extra, **kw):
+        el = orig(svg, parent_el, reuse_result, *extra, **kw)
         COUNT["H9.use"] += 1
         try:
             M = parse_transform(el.get("transform")) @ _mat((1, 0, 0, 1, float(el.get("x", "0")), float(el.get("y", "0"))))
